@@ -1,0 +1,56 @@
+//go:build verif
+
+package meta
+
+import (
+	"bytes"
+
+	"github.com/nspcc-dev/bbolt"
+	cid "github.com/nspcc-dev/neofs-sdk-go/container/id"
+	"github.com/nspcc-dev/neofs-sdk-go/object"
+	oid "github.com/nspcc-dev/neofs-sdk-go/object/id"
+)
+
+// VerifBucket is what one container bucket holds (verification harness only).
+type VerifBucket struct {
+	Container cid.ID
+	IDs       []oid.ID // indexed objects, in key order
+	Phy       []bool   // IDs[i] is stored physically
+	Garbage   []oid.ID // garbage marks, in key order
+	Dead      bool     // the container is marked for removal
+}
+
+// VerifDump lists the indexed objects, garbage marks and removal marks of
+// every container bucket (verification harness only).
+func (db *DB) VerifDump() ([]VerifBucket, error) {
+	var res []VerifBucket
+	err := db.boltDB.View(func(tx *bbolt.Tx) error {
+		return tx.ForEach(func(name []byte, b *bbolt.Bucket) error {
+			cnr, prefix := parseContainerIDWithPrefix(name)
+			if cnr.IsZero() || prefix != metadataPrefix {
+				return nil
+			}
+			vb := VerifBucket{Container: cnr, Dead: containerMarkedGC(b.Cursor())}
+			c := b.Cursor()
+			ac := b.Cursor()
+			for k, _ := c.Seek([]byte{metaPrefixID}); bytes.HasPrefix(k, []byte{metaPrefixID}); k, _ = c.Next() {
+				id, err := oid.DecodeBytes(k[1:])
+				if err != nil {
+					continue
+				}
+				vb.IDs = append(vb.IDs, id)
+				vb.Phy = append(vb.Phy, getObjAttribute(ac, id, object.FilterPhysical) != nil)
+			}
+			for k, _ := c.Seek([]byte{metaPrefixGarbage}); bytes.HasPrefix(k, []byte{metaPrefixGarbage}); k, _ = c.Next() {
+				id, err := oid.DecodeBytes(k[1:])
+				if err != nil {
+					continue
+				}
+				vb.Garbage = append(vb.Garbage, id)
+			}
+			res = append(res, vb)
+			return nil
+		})
+	})
+	return res, err
+}
